@@ -22,6 +22,8 @@ type Val struct {
 	Clo  *closureVal
 	Addr *addr
 	Iter *iterVal
+	G    *ghostRef
+	GSt  *State
 }
 
 type closureVal struct {
@@ -116,10 +118,13 @@ type Engine struct {
 	sortN         int
 	sortDeps      []string
 	pendingSorts  []*sortSite
+	ghosts        map[string]*ghostRef
+	ioSites       []ioSite
+	constArrs     map[string]string
 }
 
 func newEngine(p *Prog, fn *ssa.Function) *Engine {
-	return &Engine{prog: p, vc: newVC(p), root: fn, rootKey: funcKey(fn), heapSorts: map[string]string{}, heapInit: map[string]string{}, maxInline: 4, nameCount: map[string]int{}, calledFns: map[string]bool{}, usedContracts: map[string]bool{}}
+	return &Engine{prog: p, vc: newVC(p), root: fn, rootKey: funcKey(fn), heapSorts: map[string]string{}, heapInit: map[string]string{}, maxInline: 4, nameCount: map[string]int{}, calledFns: map[string]bool{}, usedContracts: map[string]bool{}, ghosts: map[string]*ghostRef{}, constArrs: map[string]string{}}
 }
 
 func (e *Engine) note(kind, s string) {
@@ -213,7 +218,7 @@ func (e *Engine) zero(t types.Type) string {
 		return "fn_nil"
 	case kArray:
 		a := t.Underlying().(*types.Array)
-		return fmt.Sprintf("((as const (Array Int %s)) %s)", e.vc.sortOf(a.Elem()), e.zero(a.Elem()))
+		return e.constArray("Int", e.vc.sortOf(a.Elem()), e.zero(a.Elem()))
 	case kStruct:
 		ss := e.vc.structInfo(t)
 		if len(ss.fields) == 0 {
@@ -229,6 +234,25 @@ func (e *Engine) zero(t types.Type) string {
 	z := "zero_" + mangle(s)
 	e.vc.declSort(fmt.Sprintf("(declare-const %s %s)", z, s))
 	return z
+}
+
+// constArray returns an array term mapping every index to v. (as const ...) is only used for literal
+// values (cvc5 requires a value there); otherwise a constant with a defining axiom is introduced.
+func (e *Engine) constArray(idxSort, elemSort, v string) string {
+	lit := v == "true" || v == "false" || v == "0" || v == "0.0"
+	if lit {
+		return fmt.Sprintf("((as const (Array %s %s)) %s)", idxSort, elemSort, v)
+	}
+	key := "carr:" + idxSort + ":" + elemSort + ":" + v
+	if c, ok := e.constArrs[key]; ok {
+		return c
+	}
+	e.vc.n++
+	c := fmt.Sprintf("zarr!%d", e.vc.n)
+	e.vc.declSort(fmt.Sprintf("(declare-const %s (Array %s %s))", c, idxSort, elemSort))
+	e.vc.declSort(fmt.Sprintf("(assert (forall ((j %s)) (! (= (select %s j) %s) :pattern ((select %s j)))))", idxSort, c, v, c))
+	e.constArrs[key] = c
+	return c
 }
 
 // typeInv: the invariant every well-typed value of t satisfies (shallow).
@@ -250,6 +274,30 @@ func (e *Engine) typeInv(term string, t types.Type) string {
 			switch kindOf(ft) {
 			case kInt, kStr, kSlice, kPtr, kMap, kStruct:
 				cs = append(cs, e.typeInv(app(ss.fields[i], term), ft))
+			}
+		}
+		return and(cs...)
+	}
+	return "true"
+}
+
+// allocInv: references held by a loaded value denote objects allocated before the current point.
+func (e *Engine) allocInv(st *State, term string, t types.Type) string {
+	t = types.Unalias(t)
+	switch kindOf(t) {
+	case kPtr, kMap:
+		return app("<", term, st.top)
+	case kSlice:
+		return app("<", app("sptr", term), st.top)
+	case kStruct:
+		ss := e.vc.structInfo(t)
+		var cs []string
+		for i, ft := range ss.ftypes {
+			switch kindOf(ft) {
+			case kPtr, kMap:
+				cs = append(cs, app("<", app(ss.fields[i], term), st.top))
+			case kSlice:
+				cs = append(cs, app("<", app("sptr", app(ss.fields[i], term)), st.top))
 			}
 		}
 		return and(cs...)
@@ -775,15 +823,17 @@ func (fr *Frame) load(st *State, a *addr) Val {
 	if kindOf(a.T) == kMathInt && a.kind == aObj && len(a.path) == 0 && namedPath(a.rootT) == "math/big.Int" {
 		return Val{S: a.ref, T: a.T}
 	}
+	if a.kind == aGlob && len(a.path) == 0 {
+		if c := e.prog.globalConst(a.glob); c != nil {
+			return e.constVal(c)
+		}
+	}
 	root := e.loadRoot(st, a)
 	t := e.pathGet(root, a.path)
 	v := Val{S: t, T: a.T}
-	if inv := e.typeInv(t, a.T); inv != "true" && kindOf(a.T) != kStruct {
+	if inv := e.typeInv(t, a.T); inv != "true" || kindOf(a.T) == kStruct {
 		v.S = e.vc.define("ld", e.vc.sortOf(a.T), t)
-		e.assumeIn(st, e.typeInv(v.S, a.T))
-	} else if kindOf(a.T) == kStruct {
-		v.S = e.vc.define("ld", e.vc.sortOf(a.T), t)
-		e.assumeIn(st, e.typeInv(v.S, a.T))
+		e.assumeIn(st, and(e.typeInv(v.S, a.T), e.allocInv(st, v.S, a.T)))
 	}
 	if a.kind == aGlob {
 		if kindOf(a.T) == kIface && strings.HasPrefix(a.glob.Name(), "Err") {
@@ -845,6 +895,10 @@ func (fr *Frame) loopCut(li *loopInfo, cur *State, phiVals map[*ssa.Phi]Val) {
 	}
 	sort.Strings(modNames)
 	for _, name := range modNames {
+		if name == "G_*" {
+			e.havocGhost(cur)
+			continue
+		}
 		srt, ok := e.heapSorts[name]
 		if !ok {
 			continue
@@ -1150,8 +1204,8 @@ func (fr *Frame) execBlock(b *ssa.BasicBlock, st *State) {
 			mt := types.Unalias(x.Type()).Underlying().(*types.Map)
 			vn, vs, dn, ds := e.vc.mapHeapName(mt.Key(), mt.Elem())
 			ref := e.alloc(st)
-			e.setHeap(st, dn, ds, app("store", e.heap(st, dn, ds), ref, fmt.Sprintf("((as const (Array %s Bool)) false)", e.vc.sortOf(mt.Key()))))
-			e.setHeap(st, vn, vs, app("store", e.heap(st, vn, vs), ref, fmt.Sprintf("((as const (Array %s %s)) %s)", e.vc.sortOf(mt.Key()), e.vc.sortOf(mt.Elem()), e.zero(mt.Elem()))))
+			e.setHeap(st, dn, ds, app("store", e.heap(st, dn, ds), ref, e.constArray(e.vc.sortOf(mt.Key()), "Bool", "false")))
+			e.setHeap(st, vn, vs, app("store", e.heap(st, vn, vs), ref, e.constArray(e.vc.sortOf(mt.Key()), e.vc.sortOf(mt.Elem()), e.zero(mt.Elem()))))
 			fr.regs[x] = Val{S: ref, T: x.Type()}
 		case *ssa.MakeSlice:
 			sl := types.Unalias(x.Type()).Underlying().(*types.Slice)
@@ -1159,7 +1213,7 @@ func (fr *Frame) execBlock(b *ssa.BasicBlock, st *State) {
 			e.addObl(st, "panic.makeslice", fr.lbl(fr.srcOf(x, "make")), app(">=", ln.S, "0"), x.Pos())
 			hn, hs := e.vc.arrHeapName(sl.Elem())
 			ref := e.alloc(st)
-			e.setHeap(st, hn, hs, app("store", e.heap(st, hn, hs), ref, fmt.Sprintf("((as const (Array Int %s)) %s)", e.vc.sortOf(sl.Elem()), e.zero(sl.Elem()))))
+			e.setHeap(st, hn, hs, app("store", e.heap(st, hn, hs), ref, e.constArray("Int", e.vc.sortOf(sl.Elem()), e.zero(sl.Elem()))))
 			fr.regs[x] = Val{S: app("mk_slice", ref, "0", ln.S), T: x.Type()}
 		case *ssa.MakeClosure:
 			fn := x.Fn.(*ssa.Function)
